@@ -251,9 +251,14 @@ def run(a, res):
         return book.add(Resp(200, hs, body=obj, framing=fr, chunks=[4096, 10000, 70000]), req_id=req.req_id, kind="200")
 
     conf = ("cache_mem 64 MB\nmaximum_object_size_in_memory 1 MB\nacl rolnone urlpath_regex ^/c15n/\nrange_offset_limit none rolnone\n" + liveness_conf())
-    lab = Lab(a, res, handler=handler, conf=conf)
+    lab_mem = Lab(a, res, handler=handler, conf=conf)
+    # second instance: disk cache only (cache_mem 0), so that Range requests are answered from swap-file reads, whose
+    # first read delivers headers AND body bytes in one buffer (a path memory hits never take)
+    lab_disk = Lab(a, res, handler=handler, conf=conf.replace("cache_mem 64 MB", "cache_mem 0 MB"), cache_dirs=["cache_dir ufs {W}/ufs 128 16 16"])
+    import time as _time
 
     def one(c):
+        lab = lab_disk if c["n"] % 3 == 2 else lab_mem
         wit = {"seed": c["seed"], "case": c["n"]}
         path = ("/c15n/" if c["rol_none"] else "/c15/") + f"{c['seed']}/{c['n']}"
         table[path] = c
@@ -269,6 +274,9 @@ def run(a, res):
         if c["cached"]:
             i1 = rid()
             m1 = lab.fetch("GET", path, [], req_id=i1)
+            if lab is lab_disk:
+                _time.sleep(0.25)   # let the swap-out finish so that the next requests are disk hits
+                res.count("disk_instance_cases")
             i2 = rid()
             m2 = lab.fetch("GET", path, [], req_id=i2)
             for m in (m1, m2):
@@ -304,7 +312,12 @@ def run(a, res):
             if m.status == 200:
                 res.count("status_200")
                 if m.body != obj:
-                    res.violation("200-to-range-request-not-whole-object", det + f"200 with {len(m.body)} body bytes != object", wit)
+                    # specs that overlap or are out of order make squid ignore the Range header ("too complex") after it has
+                    # already positioned the store read at the lowest requested offset
+                    cplx = any(sat[i][0] <= sat[i - 1][1] for i in range(1, len(sat)))
+                    start0 = min((x[0] for x in sat), default=0) == 0
+                    res.violation("200-to-range-request-not-whole-object:%s:%s:%s:%s" % ("hit" if hit else "miss", "disk" if lab is lab_disk else "mem",
+                                  "overlapping-or-unordered-specs" if cplx else "ordered-specs", "from-offset-0" if start0 else "lowest-offset-above-0"), det + f"200 with {len(m.body)} body bytes != object; got {m.body[:40]!r} expected {obj[:40]!r} headers={m.headers}", wit)
                 res.feature(*feat, 200)
                 continue
             if m.status == 416:
@@ -376,7 +389,8 @@ def run(a, res):
     try:
         run_cases(a, res, gen_case, one, threads=8)
     finally:
-        lab.finish()
+        lab_mem.finish()
+        lab_disk.finish()
     if not a.replay_data:
         if res.counters.get("squid_built_206", 0) < max(1, a.cases // 2):
             res.inconclusive.append("too few 206 responses built by squid from a complete object (%d)" % res.counters.get("squid_built_206", 0))
